@@ -21,6 +21,9 @@ def close(a, b, rtol=1e-9):
     return a == b or abs(a - b) <= rtol * max(abs(a), abs(b), 1e-300)
 
 
+AMOUNT_SCALE = 0.375
+
+
 def build_system(c, usys, vol, state_unit="molecule"):
     w, h, d = c["shape"]
     n = w * h * d
@@ -30,7 +33,8 @@ def build_system(c, usys, vol, state_unit="molecule"):
                     reactions=[Reaction("A -> B", kf={"e0": 0.1, "e1": 0.3}, kr={"e0": 0.05, "default": 0.2}),
                                Reaction("2 B -> A", kf=0.01), Reaction(" -> B", kf={"e1": 0.5})], environments=["e0", "e1"])
     space = RDGridSpace(w=w, h=h, d=d, cell_env=list(c["env"]), cell_vol=vol, units_system=usys)
-    state = [float(11 + k) for k in range(n)] + [float(2 * k + 1) for k in range(n)]
+    # the specification's amounts 11, 12, ... scaled by 3/8: not whole numbers, yet sums and quotients stay exact in binary
+    state = [AMOUNT_SCALE * (11 + k) for k in range(n)] + [AMOUNT_SCALE * (2 * k + 1) for k in range(n)]
     chem = [int((k + 1) % 3 == 0) for k in range(n)] + [0] * n
     return RDSystem(network=net, space=space, state=UnitArray(state, state_unit), chemostats=chem, units_system=usys)
 
@@ -75,8 +79,8 @@ def check_case(rep, c, rng, systems):
         if int(cg.chemostats[g]) != int(nd["chem"]) or int(cg.chemostats[G + g]) != 0:
             rep.violation("nodes", "coarse:chemostat", dict(tag, group=g, got=int(cg.chemostats[g]), spec=int(nd["chem"])))
             return
-        if not close(float(st[g]), float(nd["x"])):
-            rep.violation("nodes", "coarse:state", dict(tag, group=g, got=float(st[g]), spec=nd["x"]))
+        if not close(float(st[g]), AMOUNT_SCALE * float(nd["x"])):
+            rep.violation("nodes", "coarse:state", dict(tag, group=g, got=float(st[g]), spec=AMOUNT_SCALE * nd["x"]))
             return
     got = {}
     for e in sp.edges:
@@ -114,7 +118,7 @@ def check_case(rep, c, rng, systems):
     data = un.data.convert("molecule").value.reshape((2, 2, n))
     for k in range(n):
         g = imap[k]
-        w0 = 0.0 if g == -1 else c["nodes"][g]["x"] / c["nodes"][g]["size"]
+        w0 = 0.0 if g == -1 else AMOUNT_SCALE * c["nodes"][g]["x"] / c["nodes"][g]["size"]
         if not close(float(data[0, 0, k]), w0) or not close(float(data[1, 0, k]), 2 * w0):
             rep.violation("uncoarse", "coarse:uncoarsegrain", dict(tag, cell=k, got=float(data[0, 0, k]), spec=w0))
             return
